@@ -40,6 +40,20 @@ NOTES = {
  'C04-E': 'missed at first; heading inside the body of a user macro',
  'C08-F': 'missed at first; well-formed accent forms on dotless i / j must stay silent',
  'C10-F': 'missed at first; formulas ending in \\dots / \\ldots / \\cdots',
+ 'C09-F': 'missed at first; the definitions file is also read twice (\\LTinput of the same file two times)',
+ 'C11-F': 'missed at first; := and further operators at the start of aligned sections',
+ 'C12-E': 'missed at first; main language given as class option with babel loaded with other options',
+ 'C13-F': 'missed at first; phrase words with & glued in (R&D)',
+ 'C14-E': 'missed at first; one-character matches on escaped specials (\\& \\%) with a macro later in the file',
+ 'C14-F': 'missed at first; U+2028 in front of flagged words',
+ 'C15-E': 'missed at first; html runs use --link',
+ 'C17-E': 'missed at first; server started with --replace, requests containing the phrase',
+ 'C17-F': 'missed at first; two cleveref sed files with different labels in one history',
+ 'C18-E': 'missed at first; a file whose name is the tail of another one, --skip patterns matching only the shorter name',
+ 'C18-F': 'missed at first; file names with a dot inside',
+ 'C19-E': 'missed at first; comment line directly in front of the LT-SKIP marker',
+ 'C19-F': 'missed at first; unknowns list requested together with a replacement list',
+ 'C20-E': 'missed at first; accept lists with prefix pairs, exact model of the list order',
  'C20-C': 'missed at first; shell sample also run with --multi-language and language-change placeholders',
 }
 rows = []
